@@ -143,6 +143,18 @@ def rule_rebuild(prog):
                 gbi = i
             if any(x is analyze_call for x in hir.nodes(s)) and gai is None:
                 gai = i
+        if gbi is not None and gbi == gai:
+            # both sit in one statement (a helper read in place: `let table = { let t = build(ast); analyze(ast, &t); t };`): their
+            # order is the order in the innermost block that holds both
+            inner = None
+            for blk_ in hir.nodes(gseq[gbi], "Block"):
+                if any(x is build_call for x in hir.nodes(blk_)) and any(x is analyze_call for x in hir.nodes(blk_)):
+                    inner = blk_
+            if inner is not None:
+                gseq = list(inner["stmts"]) + ([inner["expr"]] if inner.get("expr") else [])
+                gblk = inner
+                gbi = next((i for i, s in enumerate(gseq) if any(x is build_call for x in hir.nodes(s))), None)
+                gai = next((i for i, s in enumerate(gseq) if any(x is analyze_call for x in hir.nodes(s))), None)
         out.add(item, "build precedes analyze", gbi is not None and gai is not None and gbi < gai, c.loc(analyze_call["sp"]),
                 "analyze must see the rebuilt table")
         ast_b = place(build_call["args"][0])
@@ -165,13 +177,28 @@ def rule_rebuild(prog):
         ok = None
         if g is b:
             ret = hir.strip(seq[-1]) if blk.get("expr") else None
+            # (a table built inside a block that is the value of an outer `let` is known under that name afterwards)
+            dests = {dest}
+            if gblk is not None and gblk is not blk and gblk.get("expr") is not None and place(hir.strip(gblk["expr"])) == dest:
+                for l_ in hir.nodes(b["body"], "Let"):
+                    i_ = l_.get("init")
+                    while isinstance(i_, dict) and i_.get("k") in ("Paren",):
+                        i_ = i_["e"]
+                    if isinstance(i_, dict) and i_.get("k") == "BlockExpr" and i_["b"] is gblk and l_["pat"].get("k") == "Binding":
+                        dests.add("%s#%s" % (l_["pat"]["name"], l_["pat"]["id"]))
+                for a_ in hir.nodes(b["body"], "Assign"):
+                    r_ = a_["r"]
+                    while isinstance(r_, dict) and r_.get("k") in ("Paren",):
+                        r_ = r_["e"]
+                    if isinstance(r_, dict) and r_.get("k") == "BlockExpr" and r_["b"] is gblk and place(a_["l"]):
+                        dests.add(place(a_["l"]))
             if ret is not None:
                 if ret.get("k") == "Path":
                     rp = place(ret)
-                    ok = (ast_b or "").startswith(rp + ".") and (dest or "").startswith(rp + ".")
+                    ok = (ast_b or "").startswith(rp + ".") and any((d_ or "").startswith(rp + ".") for d_ in dests)
                 elif ret.get("k") == "Struct":
                     f = {x["name"]: place(x["e"]) for x in ret["fields"]}
-                    ok = f.get("ast") == ast_b and f.get("table") == dest
+                    ok = f.get("ast") == ast_b and f.get("table") in dests
         else:
             # helper returns the table it built; the caller stores it next to the AST it passed in
             gret = hir.strip(gseq[-1]) if gblk is not None and gblk.get("expr") else None
